@@ -39,10 +39,28 @@ def run(ctx):
     plain(ctx)
 
 
+def program_start_body(facts):
+    """the function that builds the entry frame: the public `init_stack_program_start` itself, or the one local callee it
+    forwards (length, argv, envp) to -- found through the call, not by name"""
+    pub = facts.method(AXE, "init_stack_program_start")
+    cands = []
+    for blk in pub["blocks"]:
+        t = blk["term"]
+        if t["k"] == "call":
+            cb = facts.bodies.get(F.callee_name(t))
+            if cb is not None and cb.get("argc") == 4 and not cb["glue"] and cb["locals"][2] == ["u", 64]:
+                cands.append(cb)
+    if len(cands) == 1:
+        return cands[0]
+    if not cands:
+        return pub
+    raise KeyError("init_stack_program_start forwards to %d candidates" % len(cands))
+
+
 def program_start(ctx):
     ck, facts = ctx.check, ctx.facts
     try:
-        b = facts.method(AXE, "init_stack_program_start_impl")
+        b = program_start_body(facts)
     except KeyError as e:
         ck.violation("C17.order", "api=init_stack_program_start", str(e))
         return
